@@ -122,7 +122,7 @@ ADDENDA = {
  "C10": " Added later: SetLock(0,false) as a seal request, eng (the library's default language) as one of the two languages, keys handed over as slices with caller-owned bytes behind them, value buffers overwritten by the caller after the call, and keys of 251/252 bytes.",
  "C11": " Added later: listing on the Postgres backend, sessions whose ids contain each other (own listing exact), records copied with Get+Put, and three persister arrangements (one per session, one re-pointed with WithSession, store handle shared with code that selects USERDATA).",
  "C12": " Added later: every operation of the request is also answered once with an I/O error (refused; writes also as short writes) after which the request runs on - also with a flushing persister and a client that retries a failed Finish; and for every history the next start's read of the record fails once.",
- "C13": " Added later: Stop directly after an error inside the explicit transaction (may fail; if it reports success the transaction's writes are there). Round 5: the listing (Dump of the common prefix, drained or left after the first entry) and Abort without an explicit transaction are operations of the userdata variant's alphabet (thorough: length 5; the core alphabet without them: length 6); the '-after-earlier-stop' qualifier of the open findings is dropped for runs that leave that mode with Abort/Start before using it, and losses caused by the rollback of the leaked transaction carry a suffix of their own.",
+ "C13": " Added later: Stop directly after an error inside the explicit transaction (may fail; if it reports success the transaction's writes are there). Round 5: the listing (Dump of the common prefix, drained or left after the first entry) and Abort without an explicit transaction are operations of the userdata variant's alphabet (thorough: length 5; the core alphabet without them: length 6); the '-after-earlier-stop' qualifier of the open findings is dropped for runs that leave that mode with Abort/Start before using it.",
  "C14": " Added later: every spelling of vm.NewLine's integer argument (empty, minimal, zero-padded).",
  "C15": " A panic raised in Vm.Run's own frame (opcode dispatch) counts as a decoding panic.",
  "C17": " Added later: an engine with persister kept for the session; the previous page fetched only after the refusal; an application-registered input format (and one that does not compile); every non-alphanumeric single byte; every input handed over in one reused read buffer; and the same question put to engine.Loop (over-long line in the middle of its input).",
